@@ -173,7 +173,7 @@ def stepCal (st : CalState) (args : List String) : CalState × String :=
         if nf < 1 then (st, failInval) else
         let fs := (rest.take nf.toNat).map floatOf
         let asc := (fs.zip (fs.drop 1)).all fun (a, b) => a < b
-        if fs.head?.getD 0.0 < 0.0 ∨ ¬ asc then (st, failInval) else
+        if ¬ (fs.head?.getD 0.0 ≥ 0.0) ∨ ¬ asc then (st, failInval) else      -- (written so that a NaN is refused, as the C tests are)
         let (pt, i) := cr.ptab.makePlain 2
         ({ st with cals := st.cals.set c (some { cr with ptab := pt }) }, okv i)
     | _, _ => (st, "bad-op")
